@@ -67,6 +67,26 @@ def streams(seed, tier):
         st["exec"] = [I(nm)] + st["exec"]
         cases.append(case_run(rng.randrange(2), state(**st), 0, 1))
     out.append(Stream("random-deep", "run", "stackops.check", cases, "random whole states with stacks up to 40 deep, random indices"))
+    # size thresholds: depths at / around powers of two, where a cap or a buffer size would sit
+    scales = stepgen.SCALES + [16384, 16385]
+    per = {"quick": 3, "thorough": 12, "search": 6}[tier]
+    cases = []
+    for T, (field, mk) in TYPES.items():
+        small = {"bvec": lambda k: [k % 2 == 0], "code": lambda k: Z(k % 9)}.get(field, mk)
+        for op in OPS:
+            nm = T + "." + op
+            if nm not in names:
+                continue
+            for _ in range(per):
+                depth = rng.choice(scales)
+                st = bystanders()
+                st[field] = [small(k) for k in range(depth)]
+                st["exec"] = ([I(nm)] + st["exec"]) if T == "EXEC" else [I(nm)]
+                if op in ("YANK", "YANKDUP", "SHOVE"):
+                    st["int"] = [rng.choice([0, 1, depth - 2, depth - 1, depth, depth // 2, -1, 2147483647])] + st["int"]
+                cases.append(case_run(rng.randrange(2), state(**st), 0, 1))
+    out.append(Stream("size-thresholds", "run", "stackops.check", cases,
+                      "every stack type x 9 instructions on stacks %s deep (%d depths drawn per pair), indices at 0 / middle / depth-1 / depth / beyond" % (scales, per)))
     return out
 
 
